@@ -85,6 +85,12 @@ impl<M> Camera<M> {
         else {
             unreachable!("bounded ∩ bounded should be bounded")
         };
+        // If the requested bounds do not meet the frame at all, the bounds
+        // of the (empty) intersection are in reverse order, and a viewport
+        // of that extent would lie outside the render target. Collapse it
+        // to an empty viewport within the frame
+        let (l, t) = (l.min(w), t.min(h));
+        let (r, b) = (r.max(l), b.max(t));
 
         Self {
             dims: (r.abs_diff(l), b.abs_diff(t)),
